@@ -3,7 +3,7 @@ from common import *
 
 CLAIMED = True
 LEVEL = 'proof'
-LEVEL_TEXT = ('Proof: 24 Coq theorems. Thin lines (12, model coq/Model/Line.v of BresenhamParameters::new / Bresenham::next / Points), '
+LEVEL_TEXT = ('Proof: 27 Coq theorems in Properties/C17.v. Thin lines (12, model coq/Model/Line.v of BresenhamParameters::new / Bresenham::next / Points), '
               'for ALL lines with coordinates within +-2^28: first point = start, last = end, max(|dx|,|dy|)+1 points, each step is one '
               'pixel along the major axis and 0 or 1 along the minor axis, every point within half a pixel of the ideal line '
               '(2|cross| <= dmaj; 4 cross^2 <= dx^2+dy^2; projection inside the segment), monotone, closed form, translation, no i32 '
@@ -11,10 +11,11 @@ LEVEL_TEXT = ('Proof: 24 Coq theorems. Thin lines (12, model coq/Model/Line.v of
               'StyledPixelsIterator), for ALL lines and widths: width 1 = points() in order, width 0 / no colour draws nothing, every '
               'stroke of width >= 1 starts with exactly points() (contains the thin line), ParallelsIterator stops after <= 3w+2 '
               'parallels (termination, pixel count bound), translation equivariance, NO PIXEL TWICE (C17_thick_no_duplicate, via disjoint '
-              'cross-product bands of the parallels), distance <= 3w+2.5 (coarse). The bound w/2+2.5 of the property is refuted from width 34 on '
-              '(C17_thick_distance_refuted, finding K17_wide_stroke). Distance <= w/2+2.5, <= 1 px beyond '
-              'the ends, >= w-1 wide at the middle: proved by computation in Coq for every line with |dx|,|dy| <= 14 anywhere in the plane '
-              '(= all end point pairs of the grid [-7,7]^2 and their translates) x widths 0..9 (C17_thick_grid_partial); beyond that '
+              'cross-product bands of the parallels), AT MOST HALF A MAJOR STEP (< 1 px) BEYOND THE TWO ENDS (C17_thick_within_ends, from the invariant '
+              '2*dot(start point) = +-perpendicular error), 90-degree rotation equivariance for non-axis, non-diagonal lines, distance <= 3w+2.5 (coarse). The bound w/2+2.5 of the property is refuted from width 34 on '
+              '(C17_thick_distance_refuted, finding K17_wide_stroke). Distance <= w/2+2.5 and >= w-1 wide at the middle: proved by computation in Coq for every line with |dx|,|dy| <= 24 anywhere in the plane '
+              '(= all end point pairs of the grid [-12,12]^2 and their translates) x widths 0..16 (sweep over one quadrant + axis/diagonal lines, '
+              'lifted by the proved 90-degree rotation equivariance C17_thick_points_rot) (C17_thick_grid_partial); beyond that '
               'domain these four clauses are searched on the implementation. Both models are tied to the code by running the extracted '
               'model and the real iterators on the same inputs (pixel order included) on every run.')
 LEVEL_NOTE = ('Trusted: Coq kernel (vm_compute for the grid sweep), extraction (ExtrOcamlBasic), the OCaml/Rust drivers; the hand-written '
@@ -37,8 +38,8 @@ TRUSTED = ['modelled, not verified: Point +/-/abs as unbounded Z operations, `as
            'i32 `/ 2` of a non-negative value as Z.quot']
 PARTIAL = ['C17_thick_distance_partial (full statement: distance <= w/2 + 2.5 for all lines and widths < 34; proved: <= 3w + 2.5 for all; '
            'false from width 34 on: finding K17_wide_stroke)',
-           'C17_thick_grid_partial (full statement: thick_ok l w -- distance <= w/2+2.5, <= 1 px beyond the ends, '
-           '>= w-1 wide at the middle (and no duplicate pixel, which C17_thick_no_duplicate proves in general) -- for ALL lines and widths < 34; proved for |dx|,|dy| <= 14, w <= 9 by computation)']
+           'C17_thick_grid_partial (full statement: thick_ok l w -- distance <= w/2+2.5, >= w-1 wide at the middle '
+           '(and no duplicate pixel / <= 1 px beyond the ends, which C17_thick_no_duplicate / C17_thick_within_ends prove in general) -- for ALL lines and widths < 34; proved for |dx|,|dy| <= 24, w <= 16 by computation + rotation/translation symmetry)']
 
 
 def grid_lines(R):
